@@ -41,7 +41,7 @@ Next == AddObj \/ AddTempo \/ Finish
 Spec == Init /\ [][Next]_vars
 
 File == [bpm0 |-> 50000, lnobj |-> LnObj, wavs |-> << [id |-> "01", file |-> "a.wav"], [id |-> "02", file |-> "b.wav"] >>,
-         exbpm |-> <<>>, hdr |-> <<>>,
+         exbpm |-> <<>>, hdr |-> <<>>, sigs |-> <<>>,
          lines |-> [k \in 1..(Len(objs) + Len(tempo)) |->
              IF k <= Len(objs)
              THEN [m |-> objs[k].pos[1], ch |-> ChOf(lay, objs[k].col), d |-> objs[k].pos[3],
